@@ -21,6 +21,9 @@ def parseVal (j : Json) : R EVal := do
   | _ => pure (.prim (← parsePrim j))
 
 def parseTyKey (j : Json) : R TyKey := do
+  -- ["svc"]: a service type (no bit length set, no layout): its key is `svcKey`
+  if (← str (← nth (← arr (← field j "ty")) 0)) == "svc" then
+    return svcKey (← str (← field j "str"))
   let t ← DriverLayout.parseTy (← field j "ty")
   if !t.wf then throw "rejected"
   pure { cls := ← str (← field j "cls"), str := ← str (← field j "str"), bls := t.bls }
